@@ -164,7 +164,7 @@ namespace adept {
 	  return;
 	}
 #endif
-	for (uIndex i = first; i < last_plus_1; i += stride) {
+	for (uIndex i = first; i != last_plus_1; i += stride) {
 	  statement_[n_statements_].index = i;
 	  statement_[n_statements_++].end_plus_one = n_operations_;
 	}
